@@ -816,5 +816,7 @@ func factsC11(r *Repo) []Fact {
 	}
 	// ---- contexts and the lock (family "late", c11_late.go) ----
 	out = append(out, factsC11Late(r)...)
+	// ---- the skip-pre-handler mark of a restored task (family "loop", c11_loop.go) ----
+	out = append(out, factsC11Loop(r)...)
 	return out
 }
